@@ -357,6 +357,31 @@ func TestList(t *testing.T) {
 	listList(t, "list.Flatten", func(l fp.List[int]) fp.List[int] {
 		return list.Flatten(list.Of[fp.List[int]](l, list.Empty[int](), l))
 	})
+	// the remaining list-to-list functions (found uncovered by a coverage run of the quick tier)
+	listList(t, "list.Ap", func(l fp.List[int]) fp.List[int] {
+		fs := list.Map(l, func(x int) fp.Func1[int, int] { return func(y int) int { return x*10 + y } })
+		return list.Ap(fs, l)
+	})
+	listList(t, "list.Lift", func(l fp.List[int]) fp.List[int] { return list.Lift(func(x int) int { return x + 1 })(l) })
+	listList(t, "list.Compose+ComposePure", func(l fp.List[int]) fp.List[int] {
+		return list.Compose(func(int) fp.List[int] { return l }, list.ComposePure(func(x int) int { return x * 2 }))(0)
+	})
+	listList(t, "list.Flap+Flap2", func(l fp.List[int]) fp.List[int] {
+		f1 := list.Map(l, func(x int) fp.Func1[int, int] { return func(y int) int { return x + y } })
+		f2 := list.Map(l, func(x int) fp.Func1[int, fp.Func1[int, int]] {
+			return func(y int) fp.Func1[int, int] { return func(z int) int { return x + y + z } }
+		})
+		return list.Combine(list.Flap(f1)(3), list.Flap2(f2)(1)(2))
+	})
+	listList(t, "list.FlapMap+Method1+Method2", func(l fp.List[int]) fp.List[int] {
+		a := list.FlapMap(func(x, y int) int { return x - y }, l)(1)
+		b := list.Method1(l, func(x, y int) int { return x * y })(2)
+		c := list.Method2(l, func(x, y, z int) int { return x + y*z })(2, 3)
+		return list.Combine(a, list.Combine(b, c))
+	})
+	listList(t, "list.Zip3", func(l fp.List[int]) fp.List[int] {
+		return list.Map(list.Zip3(l, l.Tail(), l), func(t fp.Tuple3[int, int, int]) int { return t.I1 + t.I2 + t.I3 })
+	})
 	fnCheckF(t, "list.Zip", func(e *env) func() {
 		a := e.ints("a", maxLen)
 		b := e.ints("b", maxLen)
